@@ -14,15 +14,15 @@ Proof. destruct u; intros H; [congruence| | | | | | | | | |]; cbn [digits]; eexi
 Lemma to_int_nonnil z : match Z.to_int z with Decimal.Pos u => u <> Decimal.Nil | Decimal.Neg u => u <> Decimal.Nil end.
 Proof. destruct z; cbn; [discriminate|apply Unsigned.to_uint_nonnil|apply Unsigned.to_uint_nonnil]. Qed.
 
-Lemma parse_print_int z : parse_int (print_int z) = Some z.
+Lemma parse_print_int0 z : parse_int0 (print_int z) = Some z.
 Proof.
   unfold print_int. pose proof (DecimalZ.of_to z) as Hz. pose proof (to_int_nonnil z) as Hn.
   destruct (Z.to_int z) as [u|u].
-  - destruct (digits_nonnil u Hn) as (c & rest & E & Hc). unfold parse_int. rewrite E.
+  - destruct (digits_nonnil u Hn) as (c & rest & E & Hc). unfold parse_int0. rewrite E.
     destruct (c =? 45) eqn:E1; [apply Z.eqb_eq in E1; lia|].
     destruct (c =? 43) eqn:E2; [apply Z.eqb_eq in E2; lia|].
     rewrite <- E, undigits_digits. cbn [option_map]. rewrite Hz. reflexivity.
-  - destruct (digits_nonnil u Hn) as (c & rest & E & Hc). unfold parse_int.
+  - destruct (digits_nonnil u Hn) as (c & rest & E & Hc). unfold parse_int0.
     change (45 =? 45) with true. cbv iota. rewrite E. rewrite <- E, undigits_digits. cbn [option_map]. rewrite Hz. reflexivity.
 Qed.
 Lemma print_int_chars z : Forall (fun c => c = 45 \/ 48 <= c <= 57) (print_int z).
@@ -94,6 +94,16 @@ Proof.
     { rewrite Forall_forall in Hall. apply Hall. apply in_rev. rewrite R. left; reflexivity. }
     cbn [app]. rewrite (lstrip_keep _ _ Hc). change (c :: rb ++ rev a) with ((c :: rb) ++ rev a). rewrite <- R, <- rev_app_distr.
     apply rev_involutive.
+Qed.
+
+Lemma parse_print_int z : parse_int (print_int z) = Some z.
+Proof.
+  unfold parse_int. destruct (print_int_head z) as (c0 & rest & E & H0).
+  replace (strip (print_int z)) with (print_int z); [apply parse_print_int0|].
+  symmetry. change (print_int z) with ([] ++ print_int z). eapply strip_keep; [cbn; exact E|exact H0| |].
+  - rewrite E. discriminate.
+  - eapply Forall_impl; [|apply print_int_chars]. intros c [->|Hc]; [reflexivity|].
+    unfold is_space. repeat (apply orb_false_iff; split); try apply andb_false_iff; lia.
 Qed.
 
 (* ------------------------------------------------------------------ lines *)
